@@ -1,5 +1,5 @@
 SPECIFICATION Spec
-CONSTANT Ns = {2, 3}
+CONSTANT Ns = {2, 3, 4}
 CONSTANT GridNum <- QuickGrid
 CONSTANT GridDen = 2
 CONSTANT NObjs = 60
